@@ -8,6 +8,7 @@ package harness
 import (
 	"encoding/json"
 	"fmt"
+	"github.com/ovn-org/libovsdb/simrt"
 	"math"
 	"reflect"
 	"sort"
@@ -248,6 +249,7 @@ func (d DBState) Rows() int {
 // DiffStates describes how b differs from a (empty string: equal), restricted
 // to cols (nil: all columns) per table.
 func DiffStates(a, b DBState, tables []string, cols map[string][]string) string {
+	simrt.Heartbeat.Add(1) // analysis is progress too (watchdog food)
 	var out []string
 	for _, t := range tables {
 		ta, tb := a[t], b[t]
